@@ -329,7 +329,7 @@ step_harness!(c01_step_PushUpVar, {
     check_step(PushUpVar(i), &[repr_of(a)], (Some(u0), Some(u1)), Expect { frame: Some(pad(&[a, v])) });
 });
 
-//@ tier=thorough cap=1800 funcs=ExecuteContext::execute_,StackFrame::pop_many bound=frame_of_3_slots;n_le_2 mem=24
+//@ tier=extended cap=1800 funcs=ExecuteContext::execute_,StackFrame::pop_many bound=frame_of_3_slots;n_le_2 mem=24
 step_harness!(c01_step_Pop, {
     let (a, b, c) = (any_scalar(), any_scalar(), any_scalar());
     let n: VmIndex = kani::any();
@@ -338,7 +338,7 @@ step_harness!(c01_step_Pop, {
     check_step(Pop(n), &[repr_of(a), repr_of(b), repr_of(c)], (None, None), Expect { frame: Some(e) });
 });
 
-//@ tier=thorough cap=1800 funcs=ExecuteContext::execute_,Stack::slide,Stack::copy_value bound=frame_of_3_slots;n_le_2 mem=24
+//@ tier=extended cap=1800 funcs=ExecuteContext::execute_,Stack::slide,Stack::copy_value bound=frame_of_3_slots;n_le_2 mem=24
 step_harness!(c01_step_Slide, {
     let (a, b, c) = (any_scalar(), any_scalar(), any_scalar());
     let n: VmIndex = kani::any();
@@ -370,7 +370,7 @@ pop_slide_concrete!(c01_step_Slide_2, Slide, 2, |a, b, c| [c]);
 // control flow
 // ---------------------------------------------------------------------------------------------
 
-//@ tier=thorough cap=1800 funcs=ExecuteContext::execute_,ProgramCounter::jump bound=frame_of_2_slots mem=24
+//@ tier=extended cap=1800 funcs=ExecuteContext::execute_,ProgramCounter::jump bound=frame_of_2_slots mem=24
 step_harness!(c01_step_Jump, unwind 5, {
     let (a, b) = (any_scalar(), any_scalar());
     let st = stop();
@@ -385,7 +385,7 @@ step_harness!(c01_step_Jump, unwind 5, {
     kani::cover!(true, "step completed");
 });
 
-//@ tier=thorough cap=1800 funcs=ExecuteContext::execute_,ProgramCounter::jump,StackFrame::pop bound=frame_of_2_slots;condition_any_tag mem=24
+//@ tier=extended cap=1800 funcs=ExecuteContext::execute_,ProgramCounter::jump,StackFrame::pop bound=frame_of_2_slots;condition_any_tag mem=24
 step_harness!(c01_step_CJump, unwind 5, {
     let a = any_scalar();
     let t: VmTag = kani::any();
@@ -456,7 +456,7 @@ step_harness!(c01_step_GetOffset, {
     );
 });
 
-//@ tier=thorough cap=1800 funcs=ExecuteContext::execute_,StackFrame::extend bound=data_with_2_fields mem=24
+//@ tier=extended cap=1800 funcs=ExecuteContext::execute_,StackFrame::extend bound=data_with_2_fields mem=24
 step_harness!(c01_step_Split_data, {
     let (a, f0, f1) = (any_scalar(), any_scalar(), any_scalar());
     let d = data(kani::any(), Some(f0), Some(f1));
@@ -495,7 +495,7 @@ macro_rules! int_arith {
 int_arith!(c01_step_AddInt, AddInt, checked_add);
 //@ tier=thorough cap=1800 funcs=ExecuteContext::execute_,binop_int,binop bound=operands_any_i64;frame_of_3_slots mem=24
 int_arith!(c01_step_SubtractInt, SubtractInt, checked_sub);
-//@ tier=thorough cap=1800 funcs=ExecuteContext::execute_,binop_int,binop bound=operands_any_i64;frame_of_3_slots mem=24
+//@ tier=extended cap=1800 funcs=ExecuteContext::execute_,binop_int,binop bound=operands_any_i64;frame_of_3_slots mem=24
 int_arith!(c01_step_DivideInt, DivideInt, checked_div);
 
 // Division with a CONCRETE divisor and any dividend: a symbolic 64-bit divider compared with a second,
@@ -525,7 +525,7 @@ int_div_by!(c01_step_DivideInt_by_0, 0);
 //@ tier=thorough cap=1800 mem=24 funcs=ExecuteContext::execute_,binop_int,binop bound=dividend_any_i64;divisor_2
 int_div_by!(c01_step_DivideInt_by_2, 2);
 
-//@ tier=thorough cap=1800 funcs=ExecuteContext::execute_,binop_int,binop bound=operands_any_i32_sign_extended;frame_of_3_slots mem=24
+//@ tier=extended cap=1800 funcs=ExecuteContext::execute_,binop_int,binop bound=operands_any_i32_sign_extended;frame_of_3_slots mem=24
 step_harness!(c01_step_MultiplyInt, {
     // 64x64 symbolic multiplication with overflow detection is a known SAT-hard kernel; the
     // operands are restricted to the i32 range (overflow then never happens: also asserted).
@@ -539,7 +539,7 @@ step_harness!(c01_step_MultiplyInt, {
     check_step(MultiplyInt, &[repr_of(s), Int(a), Int(b)], (None, None), exp);
 });
 
-//@ tier=thorough cap=1800 funcs=ExecuteContext::execute_,binop_int,binop bound=multiply_overflow_boundaries;one_operand_power_of_two mem=24
+//@ tier=extended cap=1800 funcs=ExecuteContext::execute_,binop_int,binop bound=multiply_overflow_boundaries;one_operand_power_of_two mem=24
 step_harness!(c01_step_MultiplyInt_pow2, {
     // any a, b = +-2^k: decides the overflow boundary exactly without a general multiplier
     let s = any_scalar();
@@ -586,7 +586,7 @@ macro_rules! byte_arith {
 byte_arith!(c01_step_AddByte, AddByte, checked_add);
 //@ tier=thorough cap=1800 funcs=ExecuteContext::execute_,binop_byte,binop bound=operands_any_u8 mem=24
 byte_arith!(c01_step_SubtractByte, SubtractByte, checked_sub);
-//@ tier=thorough cap=1800 funcs=ExecuteContext::execute_,binop_byte,binop bound=operands_any_u8 mem=24
+//@ tier=extended cap=1800 funcs=ExecuteContext::execute_,binop_byte,binop bound=operands_any_u8 mem=24
 byte_arith!(c01_step_MultiplyByte, MultiplyByte, checked_mul);
 //@ tier=thorough cap=1800 funcs=ExecuteContext::execute_,binop_byte,binop bound=operands_any_u8 mem=24
 byte_arith!(c01_step_DivideByte, DivideByte, checked_div);
